@@ -57,6 +57,8 @@ def make_net(netspec, eq_type, slice_solution=None):
 
     mod = make_field_module(netspec["field"])
     m = int(netspec["field"]["m"])
+    if slice_solution is None and netspec.get("slice_solution") is not None:
+        slice_solution = jnp.s_[netspec["slice_solution"][0]:netspec["slice_solution"][1]]
     if slice_solution is None:
         slice_solution = jnp.s_[0:m]
     u = jinns.utils.PINN(mlp=mod, slice_solution=slice_solution, eq_type=eq_type, input_transform=tr_in,
@@ -130,12 +132,16 @@ def eq_classes():
 
 
 # heterogeneity functions: param -> a*param + b*(first coordinate) ; menu keyed by (kind)
-def _het(kind, name, a, b):
+def _het(kind, name, a, b, other=None, c=0.0):
+    """param -> a*param + b*(first coordinate) [+ c*sum(base value of another declared key)]"""
+    def extra(params):
+        return 0.0 if other is None else c * _s(params.eq_params[other])
+
     if kind == "ode":
-        return lambda t, u, params: a * params.eq_params[name] + b * _s(t)
+        return lambda t, u, params: a * params.eq_params[name] + b * _s(t) + extra(params)
     if kind == "statio":
-        return lambda x, u, params: a * params.eq_params[name] + b * x[0]
-    return lambda t, x, u, params: a * params.eq_params[name] + b * _s(t)
+        return lambda x, u, params: a * params.eq_params[name] + b * x[0] + extra(params)
+    return lambda t, x, u, params: a * params.eq_params[name] + b * _s(t) + extra(params)
 
 
 def make_equation(spec):
@@ -144,7 +150,8 @@ def make_equation(spec):
     pnames = tuple(sorted(spec["eq_params"].keys()))
     het = None
     if spec.get("hetero"):
-        het = {k: (None if v is None else _het(spec["kind"], k, v[0], v[1])) for k, v in spec["hetero"].items()}
+        het = {k: (None if v is None else _het(spec["kind"], k, v[0], v[1], *(v[2:4] if len(v) >= 4 else ())))
+               for k, v in spec["hetero"].items()}
     return eq_classes()[spec["kind"]](coef=jnp.asarray(spec["eq"]["coef"], dtype=float), pnames=pnames,
                                       eq_params_heterogeneity=het)
 
@@ -410,6 +417,8 @@ def _hetero(spec, eqp, z):
     for k, v in het.items():
         if v is not None and k in out:
             out[k] = v[0] * eqp[k] + v[1] * z[0]
+            if len(v) >= 4:  # reads the BASE (raw) value of another declared key
+                out[k] = out[k] + v[3] * float(np.sum(eqp[v[2]]))
     return out
 
 
@@ -472,13 +481,14 @@ def ref_terms(spec):
             if eqp is None:
                 raise ValueError("normalisation with a parameter batch is outside the domain")
             S = nm["samples"]
+            s0 = (net.get("slice_solution") or [0, m])[0]  # first solution component
             if kind == "statio":
-                mean_u = np.mean([net_all(net, np.asarray(s, dtype=np.float64), eqp)[0][0] for s in S])
+                mean_u = np.mean([net_all(net, np.asarray(s, dtype=np.float64), eqp)[0][s0] for s in S])
                 out["norm_loss"] = float(w * (nm["L"] * mean_u - 1.0) ** 2)
             else:
                 acc = []
                 for t in [r[0] for r in rows]:
-                    mean_u = np.mean([net_all(net, np.array([t] + list(s)), eqp)[0][0] for s in S])
+                    mean_u = np.mean([net_all(net, np.array([t] + list(s)), eqp)[0][s0] for s in S])
                     acc.append((nm["L"] * mean_u - 1.0) ** 2)
                 out["norm_loss"] = float(w * np.mean(acc))
         else:
@@ -498,8 +508,10 @@ def ref_terms(spec):
             eqp = _row_params(spec, i, obs.get("eq_params"))
             V, _, _ = net_all(net, np.asarray(zin, dtype=np.float64), eqp)
             sel = V
+            if net.get("slice_solution") is not None:  # the solution components of the network output
+                sel = V[net["slice_solution"][0]:net["slice_solution"][1]]
             if obs.get("obs_slice") is not None:
-                sel = V[obs["obs_slice"][0]:obs["obs_slice"][1]]
+                sel = sel[obs["obs_slice"][0]:obs["obs_slice"][1]]
             acc.append(float(np.sum(w * (sel - np.asarray(obs["val"][i], dtype=np.float64)) ** 2)))
         out["observations"] = float(np.mean(acc))
     else:
